@@ -23,7 +23,9 @@ type capture struct {
 
 func (c *capture) Unmarshal(buf *bytes.Buffer) error {
 	c.called = true
-	c.b = append([]byte{}, buf.Bytes()...)
+	// like the library's own decoders, consume the buffer (a decoder reads its input; a caller must not rely on it staying full)
+	c.b = make([]byte, buf.Len())
+	buf.Read(c.b)
 	return nil
 }
 
